@@ -223,51 +223,10 @@ def run(world, rep, tier, only=None):
     # ------------------------------------------------------------------ C20.c the writer skips nothing else
     lib = ef
     fl2 = lib.fn("ext2fs_flush2")
+    flush2_writer_rules(world, ef, rep, "C20.c")
     loc = calls_to(fl2, "ext2fs_super_and_bgd_loc2")
-    rep.floor("C20.c super_and_bgd_loc2 call in flush2", len(loc), 1)
     loop = _loop_head(fl2, loc[0])
-    if loop is None:
-        raise Broken("group loop of ext2fs_flush2 not found")
-    body = fl2.reach([fl2.node(fl2.blocks[loop]["s"][0], 0)], avoid=[fl2.block_end(loop)])
-
-    def inner_lits(n):
-        out = []
-        for (bid, truth, atom) in fl2.control_literals(n):
-            if fl2.block_end(bid) in body and bid != loop:
-                out.append((truth, atom))
-        return out
-    wb = [n for n in calls_to(fl2, "write_backup_super") if n in body]
-    rep.floor("C20.c write_backup_super in the group loop", len(wb), 1)
-    for n in wb:
-        lits = inner_lits(n)
-        ok = all((lit_tests_bit(a, "EXT2_FLAG_MASTER_SB_ONLY", "flags") and not t) or (T.path(a) in ("i", "super_blk") and t) or
-                 _is_progress(a) for t, a in lits)
-        rep.ob("C20.c", site(fl2, "backup superblock write restricted only by MASTER_SB_ONLY, i, super_blk"), ok and bool(lits),
-               "guards inside the loop: %s" % [("" if t else "!") + T.pp(a)[:40] for t, a in lits])
-        rep.ob("C20.c", site(fl2, "backup goes to the computed location"),
-               T.path(arg(n, 2)) == "super_blk" and T.path(arg(n, 1)) == "i", "write_backup_super(fs, %s, %s, …)" %
-               (T.pp(arg(n, 1)), T.pp(arg(n, 2))))
-    dw = [n for n in body if n.ev and n.ev["e"] == "C" and effects.is_write_req(fl2, n)]
-    rep.floor("C20.c descriptor writes in the group loop", len(dw), 2)
-    for n in dw:
-        lits = inner_lits(n)
-        tgt = T.path(arg(n, 1))
-        if tgt == "old_desc_blk":
-            ok = all((lit_tests_bit(a, "EXT2_FLAG_SUPER_ONLY", "flags") and not t) or (T.path(a) == "old_desc_blk" and t) or
-                     (lit_tests_bit(a, "EXT2_FLAG_MASTER_SB_ONLY", "flags")) or (T.path(a) == "i") or
-                     (_is_eq_zero(a, "i")) or _is_progress(a) or _is_retval(a) for t, a in lits)
-            what = "old-style descriptor write restricted only by SUPER_ONLY, old_desc_blk, MASTER_SB_ONLY || i == 0"
-        elif tgt == "new_desc_blk":
-            ok = all((lit_tests_bit(a, "EXT2_FLAG_SUPER_ONLY", "flags") and not t) or (T.path(a) == "new_desc_blk" and t) or
-                     _is_progress(a) or _is_retval(a) for t, a in lits)
-            what = "meta_bg descriptor write restricted only by SUPER_ONLY, new_desc_blk"
-        else:
-            ok, what = False, "descriptor write to an unexpected target %s" % tgt
-        rep.ob("C20.c", site(fl2, what), ok, "guards inside the loop: %s" % [("" if t else "!") + T.pp(a)[:40] for t, a in lits])
-    # loop bound covers every group
-    lt = fl2.blocks[loop].get("t", {}).get("c")
-    rep.ob("C20.c", site(fl2, "loop runs over all groups"), lt is not None and ("struct_ext2_filsys", "group_desc_count") in T.fields(lt)
-           and T.strip(lt).get("o") == "<", "loop condition %s" % T.pp(lt))
+    lt_holder = None
     # one predicate everywhere
     loc2 = lib.fn("ext2fs_super_and_bgd_loc2")
     rep.ob("C20.c", site(loc2, "writer uses ext2fs_bg_has_super"), bool(calls_to(loc2, "ext2fs_bg_has_super")),
@@ -448,3 +407,60 @@ def _loop_head(fn, node):
             if best is None or len(body) < best:
                 best, head = len(body), hb
     return head
+
+
+def flush2_writer_rules(world, ef, rep, RULE):
+    """the group loop of ext2fs_flush2: which conditions may keep a backup superblock or a descriptor block from being
+    written (shared by C20.c and C01.m)"""
+    # ------------------------------------------------------------------ C20.c the writer skips nothing else
+    lib = ef
+    fl2 = lib.fn("ext2fs_flush2")
+    loc = calls_to(fl2, "ext2fs_super_and_bgd_loc2")
+    rep.floor(RULE + " super_and_bgd_loc2 call in flush2", len(loc), 1)
+    loop = _loop_head(fl2, loc[0])
+    if loop is None:
+        raise Broken("group loop of ext2fs_flush2 not found")
+    body = fl2.reach([fl2.node(fl2.blocks[loop]["s"][0], 0)], avoid=[fl2.block_end(loop)])
+
+    def inner_lits(n):
+        # what every path must satisfy, and whatever else can keep the write from happening in this turn of the loop
+        # (the last operand of a guard written `A || B`)
+        from vlib.engine import restricting_literals
+        out, seen = [], set()
+        for (bid, truth, atom) in fl2.control_literals(n) + restricting_literals(fl2, n, [fl2.node(loop, 0)]):
+            if fl2.block_end(bid) in body and bid != loop and (bid, truth) not in seen:
+                seen.add((bid, truth))
+                out.append((truth, atom))
+        return out
+    wb = [n for n in calls_to(fl2, "write_backup_super") if n in body]
+    rep.floor(RULE + " write_backup_super in the group loop", len(wb), 1)
+    for n in wb:
+        lits = inner_lits(n)
+        ok = all((lit_tests_bit(a, "EXT2_FLAG_MASTER_SB_ONLY", "flags") and not t) or (T.path(a) in ("i", "super_blk") and t) or
+                 _is_progress(a) for t, a in lits)
+        rep.ob(RULE, site(fl2, "backup superblock write restricted only by MASTER_SB_ONLY, i, super_blk"), ok and bool(lits),
+               "guards inside the loop: %s" % [("" if t else "!") + T.pp(a)[:40] for t, a in lits])
+        rep.ob(RULE, site(fl2, "backup goes to the computed location"),
+               T.path(arg(n, 2)) == "super_blk" and T.path(arg(n, 1)) == "i", "write_backup_super(fs, %s, %s, …)" %
+               (T.pp(arg(n, 1)), T.pp(arg(n, 2))))
+    dw = [n for n in body if n.ev and n.ev["e"] == "C" and effects.is_write_req(fl2, n)]
+    rep.floor(RULE + " descriptor writes in the group loop", len(dw), 2)
+    for n in dw:
+        lits = inner_lits(n)
+        tgt = T.path(arg(n, 1))
+        if tgt == "old_desc_blk":
+            ok = all((lit_tests_bit(a, "EXT2_FLAG_SUPER_ONLY", "flags") and not t) or (T.path(a) == "old_desc_blk" and t) or
+                     (lit_tests_bit(a, "EXT2_FLAG_MASTER_SB_ONLY", "flags")) or (T.path(a) == "i") or
+                     (_is_eq_zero(a, "i")) or _is_progress(a) or _is_retval(a) for t, a in lits)
+            what = "old-style descriptor write restricted only by SUPER_ONLY, old_desc_blk, MASTER_SB_ONLY || i == 0"
+        elif tgt == "new_desc_blk":
+            ok = all((lit_tests_bit(a, "EXT2_FLAG_SUPER_ONLY", "flags") and not t) or (T.path(a) == "new_desc_blk" and t) or
+                     _is_progress(a) or _is_retval(a) for t, a in lits)
+            what = "meta_bg descriptor write restricted only by SUPER_ONLY, new_desc_blk"
+        else:
+            ok, what = False, "descriptor write to an unexpected target %s" % tgt
+        rep.ob(RULE, site(fl2, what), ok, "guards inside the loop: %s" % [("" if t else "!") + T.pp(a)[:40] for t, a in lits])
+    # loop bound covers every group
+    lt = fl2.blocks[loop].get("t", {}).get("c")
+    rep.ob(RULE, site(fl2, "loop runs over all groups"), lt is not None and ("struct_ext2_filsys", "group_desc_count") in T.fields(lt)
+           and T.strip(lt).get("o") == "<", "loop condition %s" % T.pp(lt))
